@@ -89,9 +89,10 @@ class SimClock:
 
 
 class InFlight:
-    __slots__ = ("seq", "future", "thunk", "mode", "label", "queue", "started", "job_id")
+    __slots__ = ("seq", "future", "thunk", "mode", "label", "queue", "started", "job_id", "pool")
 
-    def __init__(self, seq, future, thunk, mode, label, q, job_id=None):
+    def __init__(self, seq, future, thunk, mode, label, q, job_id=None, pool=None):
+        self.pool = pool
         self.seq = seq
         self.future = future
         self.thunk = thunk
@@ -129,6 +130,8 @@ class World:
         # schedule signature: sequence of (action kinds) for distinct-interleaving measure
         self.sched_sig = hashlib.sha256()
         self.monitor_after_event: Optional[Callable[[], None]] = None
+        self.dead = False  # set when the simulated process has crashed
+        self.stale_deliveries = 0
 
     @staticmethod
     def draw_policy(ch: Choices) -> dict:
@@ -187,9 +190,14 @@ def world() -> World:
 
 class SimQueue:
     def __init__(self, maxsize: int = 0):
-        self.world = world()
         self.items: list[Callable] = []
         self.owner_thread = threading.get_ident()
+
+    @property
+    def world(self) -> World:
+        # Looked up dynamically: a Scheduler (and hence its queue) may be reused for several
+        # executions, each simulated in its own World.
+        return world()
 
     # queue.Queue API used by the scheduler
     def put(self, item: Callable, block: bool = True, timeout: Optional[float] = None) -> None:
@@ -359,20 +367,28 @@ class SimPool:
             else:
                 fut.set_exception(val)
 
-        inf = InFlight(seq, fut, thunk, mode, label, q)
+        inf = InFlight(seq, fut, thunk, mode, label, q, pool=self)
         w.inflight.append(inf)
         w.max_inflight = max(w.max_inflight, len(w.inflight))
         w.event("handoff", label)
         return fut
 
     def shutdown(self, wait: bool = True, **kw: Any) -> None:
-        # Real pools wait for running work; in the simulation the work of jobs that were
-        # never delivered simply never happens (the run is over).
+        """
+        Like the real pools, shutdown(wait=True) lets work that was already handed over run
+        to completion: the done-callbacks fire and put (now stale) events on the scheduler's
+        queue.  After a simulated crash nothing runs any more.
+        """
         self._shutdown = True
         w = self.world
-        # Drop in-flight entries that belong to this pool's scheduler run: they are
-        # abandoned jobs of a workflow that already stopped.
-        # (Identified lazily by future identity in World.abandon_for_queue.)
+        if getattr(w, "dead", False):
+            return
+        mine = [f for f in w.inflight if f.pool is self]
+        for f in mine:
+            w.inflight.remove(f)
+            w.event("deliver-at-shutdown", f.label)
+            w.stale_deliveries = getattr(w, "stale_deliveries", 0) + 1
+            f.thunk()
 
 
 class SimThreadPool(SimPool):
@@ -569,20 +585,29 @@ def template_db() -> str:
     return path
 
 
-DB_GENERATION: dict[str, int] = {}
+_GENERATION = 0
+
+
+def reset_generation() -> None:
+    global _GENERATION
+    _GENERATION = 0
 
 
 def fresh_db(name: str) -> str:
     path = os.path.join(scratch_dir(), name)
     shutil.copyfile(template_db(), path)
-    DB_GENERATION[path] = 0
     return path
 
 
-def next_generation(path: str) -> int:
-    """Number of simulated executions started on this backend file so far (uuid namespace)."""
-    DB_GENERATION[path] = DB_GENERATION.get(path, 0) + 1
-    return DB_GENERATION[path]
+def next_generation(path: str = "") -> int:
+    """
+    Number of simulated executions started in this case so far: the namespace of generated
+    uuids, distinct per execution across *all* backends of a case (records may be
+    transferred between repositories, so ids must not collide).
+    """
+    global _GENERATION
+    _GENERATION += 1
+    return _GENERATION
 
 
 def open_backend(path: str, config: Optional[dict] = None):
